@@ -293,4 +293,29 @@ theorem layOut_spec : ∀ (a : Ast) (need : Nat) (l : Layout), need ≤ 4 → l.
     · simp [Cst.bigInt, Ast.bigInt, a4, b4]
     · cases op <;> rfl
 
+
+/-! ### assembled statements -/
+
+theorem parse_cst_ieee (c : Cst) (hwf : c.WF = true) (hc : Conv c = true) (hs : c.bigInt = false)
+    (rest : List Char) (hr : Stops rest = true) :
+    parse (c.flatten ++ rest) = .ok (parsed c, rest) ∧
+    (c.adjNeg = false → eval floatOps (parsed c) = .ok (evalConv ieee c.toAst)) ∧
+    ((∀ x : Float, - -x = x) → eval floatOps (parsed c) = .ok (evalConv ieee c.toAst)) := by
+  refine ⟨parse_flatten c hwf hc hs rest hr, fun h => ?_, fun h => ?_⟩
+  · rw [eval_parsed_noAdj floatOps c h, evalConv_ieee _ (cst_ast_wf c hwf)]
+  · rw [eval_parsed floatOps h c, evalConv_ieee _ (cst_ast_wf c hwf)]
+
+theorem parse_render (a : Ast) (l : Layout) (rest : List Char) (hwf : a.WF = true)
+    (hs : a.bigInt = false) (hl : l.OK) (hr : Stops rest = true) :
+    ∃ e, parse (render a l ++ rest) = .ok (e, rest) ∧
+      (∀ {F : Type} (I : FloatOps F), (∀ x, I.neg (I.neg x) = x) →
+        eval I e = .ok (evalConv (interpOf I) a)) ∧
+      ((∀ x : Float, - -x = x) → eval floatOps e = .ok (evalConv ieee a)) := by
+  obtain ⟨⟨g1, g2, g3, g4, _⟩, _⟩ := layOut_spec a 0 l (by omega) hl hwf
+  refine ⟨parsed (layOut a 0 l).1, parse_flatten _ g3 g2 (g4.trans hs) rest hr, ?_, ?_⟩
+  · intro F I hneg
+    rw [eval_parsed I hneg, g1]
+  · intro hneg
+    rw [eval_parsed floatOps hneg, g1, evalConv_ieee a hwf]
+
 end Q1t.Proofs.Expr
